@@ -281,8 +281,6 @@ pub struct TypedGen<'a> {
     pub budget: i32,
     pub ev: i32,
     pub maxdepth: u32,
-    /// allow branches inside loops / br_table across depths (the quantifier of C20)
-    pub rich: bool,
 }
 impl<'a> TypedGen<'a> {
     fn var(&mut self) -> u32 { self.r.below(6) as u32 } // params 0,1 + locals 2..5
